@@ -9,6 +9,7 @@ import hashlib
 import json
 import os
 import re
+import shutil
 import subprocess
 import sys
 import time
@@ -218,20 +219,50 @@ def impl_env(extra=None):
     return env
 
 
+def run_dir(kind):
+    """a scratch directory private to this process (two runs - even of the same property - never share files)"""
+    d = os.path.join(BUILD, kind, "run%d" % os.getpid())
+    if not os.path.isdir(d):
+        # directories left behind by runs that were killed
+        for old in glob.glob(os.path.join(BUILD, kind, "run*")):
+            try:
+                os.kill(int(os.path.basename(old)[3:]), 0)
+            except (ValueError, ProcessLookupError):
+                shutil.rmtree(old, ignore_errors=True)
+            except PermissionError:
+                pass
+    os.makedirs(d, exist_ok=True)
+    return d
+
+
+def cleanup_run_dirs():
+    for kind in ("impl", "cases"):
+        shutil.rmtree(os.path.join(BUILD, kind, "run%d" % os.getpid()), ignore_errors=True)
+
+
 def run_impl(prop, payload, extra_env=None, timeout=1800, tag=""):
-    os.makedirs(os.path.join(BUILD, "impl"), exist_ok=True)
-    fin = os.path.join(BUILD, "impl", "%s%s.in.json" % (prop, tag))
-    fout = os.path.join(BUILD, "impl", "%s%s.out.json" % (prop, tag))
+    d = run_dir("impl")
+    fin = os.path.join(d, "%s%s.in.json" % (prop, tag))
+    fout = os.path.join(d, "%s%s.out.json" % (prop, tag))
     with open(fin, "w") as fh:
         json.dump(payload, fh)
     if os.path.exists(fout):
         os.remove(fout)
+    env = impl_env(extra_env)
+    env["VERIF_BUILD"] = d            # harness scratch files (file exporters) go to <d>/impl
+    os.makedirs(os.path.join(d, "impl"), exist_ok=True)
     rc, out, dt = sh([IMPL_PY, os.path.join(TOOLS, "impl", "run_impl.py"), prop, fin, fout],
-                     env=impl_env(extra_env), timeout=timeout, cwd=VERIF)
+                     env=env, timeout=timeout, cwd=VERIF)
     if rc != 0 or not os.path.exists(fout):
         raise RuntimeError("implementation runner failed (rc=%s):\n%s" % (rc, out[-3000:]))
     with open(fout) as fh:
-        return json.load(fh)
+        res = json.load(fh)
+    for f in (fin, fout):
+        try:
+            os.remove(f)
+        except OSError:
+            pass
+    return res
 
 
 def run_impl_parallel(prop, cases, extra_env=None, chunk=None, timeout=1800, tag=""):
@@ -273,8 +304,7 @@ def _run_shard(path, timeout):
 def run_shards(prop, header, case_type, driver, literals, shard_size=400, timeout=900, tag=""):
     """literals: list of Coq terms of type case_type.  Returns (reports, errors)
     where reports is a list of (offset, parsed report)."""
-    d = os.path.join(BUILD, "cases")
-    os.makedirs(d, exist_ok=True)
+    d = run_dir("cases")
     for old in glob.glob(os.path.join(d, "%s%s_*" % (prop, tag))) + glob.glob(os.path.join(d, ".%s%s_*" % (prop, tag))):
         try:
             os.remove(old)
